@@ -177,6 +177,11 @@ def run(chk, prop):
              [({"t": "list", "type": [_str(alphabet=[VS([97 + k, 98 + k])])], "elems": [], "len": [], "min_len": [], "max_len": []},
                {"k": "list", "items": [VS([97 + j]), VS([98 + j])]}) for k in range(4) for j in range(4)] + \
              [({"t": "int", "value": [], "min": [{"k": "int", "n": k}], "max": []}, {"k": "int", "n": j}) for k in range(5) for j in range(5)]
+    # many errors at once (more than any plausible cap on what is reported)
+    int05 = {"t": "int", "value": [], "min": [{"k": "int", "n": 0}], "max": [{"k": "int", "n": 5}]}
+    for n in (10, 11, 12, 25):
+        family.append(({"t": "list", "type": [int05], "elems": [], "len": [], "min_len": [], "max_len": []},
+                       {"k": "list", "items": [VS([122]) if j % 2 else {"k": "int", "n": 9} for j in range(n)]}))
     for rounds in range(3 if quick else 12):
         for s_abs, v_abs in family:
             v_real = am.g_value(v_abs)
